@@ -947,4 +947,55 @@ theorem gen_seqvar_fixed_is_model (sv : SeqVars) (hi : sv.index < sv.items.lengt
 
 end GenSeqVar
 
+/-! ### The loop of `InClass.renderwb` (the batched dtml-in), translated from the source on every run, is `inLoopB`
+
+C11's theorems are about the window `opt` computes; these tie the loop that walks it.  `w` holds the window as the
+prologue leaves it (`first` = start - 1, `stop` = end); the hypothesis `w.stop ≤ sv.items.length` is what the prologue
+establishes (`window_is_batch_window`, and the clamp `try: sequence[end - 1] except IndexError: end = len(sequence)`). -/
+
+/-- what a pass stores before the element is fetched - the presets of previous-sequence / next-sequence, the batching
+information on the first and on the last displayed element (the `opt` calls with the arguments of the source, the flags
+only on the first / last element, the three derived entries), `sequence-end` - is `batchStep` -/
+theorem gen_in_batch_pre_is_model (sv : SeqVars) (w : BWin) (i : Nat) : GenIn.inBatchPreGen sv w i = batchStep sv w i :=
+  Lemmas.InGen.batchPre_eq sv w i
+
+/-- one pass through the body of `for index in range(first, end)` is one unfolding of `inLoopB` -/
+theorem gen_in_batch_step_is_model (env : Env) (fuel : Nat) (o : InOpts) (w : BWin) (body : List Blk) (sv : SeqVars) (i : Nat)
+    (st : St) (hw : i < w.stop) (hi : i < sv.items.length) :
+    inLoopB env (fuel + 1) sv o w body i st =
+      GenIn.inCont (GenIn.inBatchStepGen env fuel o w body sv i st) (fun sv' st' => inLoopB env fuel sv' o w body (i + 1) st') :=
+  Lemmas.InGen.in_batch_step_eq env fuel o w body sv i st hw (by rw [(Batched.batchStep_fields sv w i).1]; exact hi)
+
+/-- the loop as the source runs it (index `i`, `i + 1`, … while `index < end`) is `inLoopB` -/
+theorem gen_in_batch_loop_is_model (env : Env) (o : InOpts) (w : BWin) (body : List Blk) : ∀ (fuel : Nat) (sv : SeqVars) (i : Nat)
+    (st : St), w.stop ≤ sv.items.length →
+    GenIn.inBatchLoopGen env fuel o w body sv i st = inLoopB env fuel sv o w body i st := by
+  intro fuel
+  induction fuel with
+  | zero => intro sv i st _; simp [GenIn.inBatchLoopGen, inLoopB]
+  | succ f ih =>
+    intro sv i st hlen
+    rcases Nat.lt_or_ge i w.stop with hw | hw
+    · have hi : i < sv.items.length := by omega
+      have hi' : i < (batchStep sv w i).items.length := by rw [(Batched.batchStep_fields sv w i).1]; exact hi
+      rw [gen_in_batch_step_is_model env f o w body sv i st hw hi, GenIn.inBatchLoopGen]
+      simp only [show ((i : Int) < (w.stop : Int)) from by omega, if_true]
+      apply Lemmas.InGen.inCont_congr
+      intro sv' h st'
+      have hk := Lemmas.InGen.batch_step_items env f o w body sv i st hi' sv' h
+      exact ih sv' (i + 1) st' (by rw [hk, (Batched.batchStep_fields sv w i).1]; exact hlen)
+    · rw [GenIn.inBatchLoopGen, inLoopB]
+      simp only [show ¬ ((i : Int) < (w.stop : Int)) from by omega, if_false, hw, if_true]
+
+/-- from the first index of `range(first, end)`, on the window `bwinOf` computes for a non-empty sequence -/
+theorem gen_in_batch_loop_from_start (env : Env) (o : InOpts) (body : List Blk) (fuel : Nat) (bp : BatchP) (sv : SeqVars) (st : St)
+    (hl : 1 ≤ sv.items.length) (ho : 0 ≤ bp.orphan) :
+    GenIn.inBatchLoopStart (bwinOf bp sv.items.length) = ((bwinOf bp sv.items.length).first : Int) ∧
+    GenIn.inBatchLoopGen env fuel o (bwinOf bp sv.items.length) body sv (bwinOf bp sv.items.length).first st =
+      inLoopB env fuel sv o (bwinOf bp sv.items.length) body (bwinOf bp sv.items.length).first st :=
+  ⟨rfl, gen_in_batch_loop_is_model env o _ body fuel sv _ st (Batched.window_is_batch_window bp sv.items.length hl ho).2.2.2⟩
+
+/-- the hypotheses are satisfiable: a window inside a five-element sequence -/
+example : (bwinOf { start := 2, size := 2 } 5).stop ≤ 5 := by decide
+
 end DTML.Props.C10
